@@ -35,7 +35,12 @@ func (p *ProtoProducer) getSamplingRateSystem(args *producer.ProduceArgs) Sampli
 	if !ok {
 		sampling = p.samplingRateSystem()
 		p.samplinglock.Lock()
-		p.sampling[key] = sampling
+		// another worker may have registered the exporter meanwhile: keep its system
+		if existing, found := p.sampling[key]; found {
+			sampling = existing
+		} else {
+			p.sampling[key] = sampling
+		}
 		p.samplinglock.Unlock()
 	}
 
